@@ -6,6 +6,7 @@
 
 mod alloc;
 mod crash;
+mod diffhint;
 mod engines;
 mod exec;
 mod hashers;
